@@ -47,7 +47,8 @@ static const rtosc::Ports lin_ports = {
     {"big:", "", 0, [](const char *, rtosc::RtData &d) { d.reply("/big-reply", "s", g_big); }},
 };
 static const rtosc::Ports enum_ports = { {"ch#16/gain:i", "", 0, hit}, {"ch#16/mute:T:F", "", 0, hit}, {"bus#4:i", "", 0, hit} };
-static const rtosc::Ports hashed_ports = { {"alpha:i", "", 0, hit}, {"beta:i", "", 0, hit}, {"gamma:f", "", 0, hit}, {"delta:", "", 0, hit}, {"epsilon:s", "", 0, hit}, {"zeta:ii", "", 0, hit}, {"eta:b", "", 0, hit}, {"theta", "", 0, hit} };
+static const rtosc::Ports long_sub_ports = { {"inner_parameter_with_a_long_name:i", "", 0, hit}, {"x:i", "", 0, hit} };
+static const rtosc::Ports hashed_ports = { {"a_port_name_longer_than_sixteen_characters:i", "", 0, hit}, {"another_quite_long_port_name_for_the_hash:f", "", 0, hit}, {"subtree_with_a_long_name/", "", &long_sub_ports, [](const char *m, rtosc::RtData &d) { while (*m && *m != '/') ++m; if (*m) ++m; long_sub_ports.dispatch(m, d); }}, {"alpha:i", "", 0, hit}, {"beta:i", "", 0, hit}, {"gamma:f", "", 0, hit}, {"delta:", "", 0, hit}, {"epsilon:s", "", 0, hit}, {"zeta:ii", "", 0, hit}, {"eta:b", "", 0, hit}, {"theta", "", 0, hit} };
 static const rtosc::ClonePorts clone_ports(hashed_ports, { {"alpha:i", [](const char *, rtosc::RtData &d) { ((Counter *)d.obj)->hits += 100; }}, {"*", [](const char *, rtosc::RtData &d) { ((Counter *)d.obj)->hits += 1000; }} });
 
 struct Rig { app::App appobj; L1 deep; Counter lin, en, hs, cl, raw; };
@@ -70,7 +71,7 @@ struct RtOut : rtosc::RtData {
 };
 
 enum { UI_SEND = 0, RT_TICK, RT_DIRECT, UI_DRAIN };
-enum { M_APP_SET = 0, M_APP_QUERY, M_APP_BADTYPE, M_NOMATCH, M_DEEP, M_LIN, M_ENUM, M_HASH, M_CLONE, M_BIGADDR, M_BIGREPLY, M_ALLTAGS, M_NKINDS };
+enum { M_APP_SET = 0, M_APP_QUERY, M_APP_BADTYPE, M_NOMATCH, M_DEEP, M_LIN, M_ENUM, M_HASH, M_CLONE, M_BIGADDR, M_BIGREPLY, M_ALLTAGS, M_MANYARGS, M_NKINDS };
 
 struct RtWorld : World {
     const char *name() const override { return "w_rt"; }
@@ -82,7 +83,7 @@ struct RtWorld : World {
     std::string rule() const override { return "one run = ring geometry + an interleaved history (1..60 ops) of UI sends (12 message kinds: macro-port sets/queries, wrong types, non-matching at each level, 3-level recursion, linear-fallback / enumerated / hashed / cloned tables, oversize address, oversize reply, all type tags), realtime ticks that read, dispatch and forward replies, and direct realtime calls (build, measure, validate, accessors, iterator, match, bundles, private link); "
         "every allocator-family or mutex call made inside the realtime section is a violation. Non-trivial = at least one dispatch reached a port inside the section; distinct = distinct hash of the op sequence."; }
     std::string describe(const Op &op) const override {
-        static const char *mk[] = {"app_set", "app_query", "app_badtype", "nomatch", "deep", "lin", "enum", "hash", "clone", "bigaddr", "bigreply", "alltags"}; char b[96];
+        static const char *mk[] = {"app_set", "app_query", "app_badtype", "nomatch", "deep", "lin", "enum", "hash", "clone", "bigaddr", "bigreply", "alltags", "manyargs"}; char b[96];
         switch (op.kind) { case UI_SEND: snprintf(b, sizeof b, "UI:send(%s,%lld,via=%lld)", mk[((op.a[0] % M_NKINDS) + M_NKINDS) % M_NKINDS], (long long)op.a[1], (long long)op.a[2]); break;
             case RT_TICK: snprintf(b, sizeof b, "RT:tick(%lld)", (long long)op.a[0]); break; case RT_DIRECT: snprintf(b, sizeof b, "RT:direct(%lld)", (long long)op.a[0]); break; default: snprintf(b, sizeof b, "UI:drain"); }
         return b;
@@ -130,11 +131,12 @@ struct RtWorld : World {
                 case M_DEEP: len = r.chance(0.5) ? rtosc_message(buf, sizeof buf, "/deep/b/c/x", "i", (int)r.below(20) - 5) : rtosc_message(buf, sizeof buf, r.chance(0.5) ? "/deep/b/c/x" : "/deep/b/y", ""); break;
                 case M_LIN: { int w = (int)r.below(6); len = w == 0 ? rtosc_message(buf, sizeof buf, "/lin/dup", "i", 7) : w == 1 ? rtosc_message(buf, sizeof buf, "/lin/dup", "f", 1.0) : w == 2 ? rtosc_message(buf, sizeof buf, "/lin/dup", "s", "x") : w == 3 ? rtosc_message(buf, sizeof buf, "/lin/other", "") : w == 4 ? rtosc_message(buf, sizeof buf, "/lin/dup", "h", (int64_t)1) : rtosc_message(buf, sizeof buf, "/lin/any", "TFNI"); break; }
                 case M_ENUM: snprintf(addr, sizeof addr, r.chance(0.5) ? "/enum/ch%d/gain" : "/enum/bus%d", (int)r.below(20)); len = rtosc_message(buf, sizeof buf, addr, "i", 3); break;
-                case M_HASH: { static const char *h[] = {"/hash/alpha", "/hash/beta", "/hash/gamma", "/hash/delta", "/hash/epsilon", "/hash/zeta", "/hash/eta", "/hash/theta"}; int w = (int)r.below(8);
-                    len = w == 2 ? rtosc_message(buf, sizeof buf, h[w], "f", 1.0) : w == 3 ? rtosc_message(buf, sizeof buf, h[w], "") : w == 4 ? rtosc_message(buf, sizeof buf, h[w], "s", "e") : w == 5 ? rtosc_message(buf, sizeof buf, h[w], "ii", 1, 2) : w == 6 ? rtosc_message(buf, sizeof buf, h[w], "b", 3, "abc") : rtosc_message(buf, sizeof buf, h[w], "i", 1); break; }
+                case M_HASH: { static const char *h[] = {"/hash/alpha", "/hash/beta", "/hash/gamma", "/hash/delta", "/hash/epsilon", "/hash/zeta", "/hash/eta", "/hash/theta", "/hash/a_port_name_longer_than_sixteen_characters", "/hash/another_quite_long_port_name_for_the_hash", "/hash/subtree_with_a_long_name/inner_parameter_with_a_long_name", "/hash/subtree_with_a_long_name/x", "/hash/a_port_name_longer_than_sixteen_characterz", "/hash/subtree_with_a_long_name/nope"}; int w = (int)r.below(14);
+                    len = w == 2 ? rtosc_message(buf, sizeof buf, h[w], "f", 1.0) : w == 3 ? rtosc_message(buf, sizeof buf, h[w], "") : w == 4 ? rtosc_message(buf, sizeof buf, h[w], "s", "e") : w == 5 ? rtosc_message(buf, sizeof buf, h[w], "ii", 1, 2) : w == 6 ? rtosc_message(buf, sizeof buf, h[w], "b", 3, "abc") : w == 9 ? rtosc_message(buf, sizeof buf, h[w], "f", 2.0) : rtosc_message(buf, sizeof buf, h[w], "i", 1); break; }
                 case M_CLONE: len = rtosc_message(buf, sizeof buf, r.chance(0.5) ? "/clone/alpha" : r.chance(0.5) ? "/clone/unknown-name" : "/clone/beta", "i", 1); break;
                 case M_BIGADDR: { memset(addr, 'a', sizeof addr); addr[0] = '/'; addr[200 + r.below(300)] = 0; len = rtosc_message(buf, sizeof buf, addr, "i", 1); stat_add(F_NO_MATCH); break; }
                 case M_BIGREPLY: len = rtosc_message(buf, sizeof buf, "/lin/big", ""); break;
+                case M_MANYARGS: { int n = 17 + (int)r.below(24); char ts[48]; for (int q = 0; q < n; q++) ts[q] = "ifTs"[q % 4]; ts[n] = 0; std::vector<rtosc_arg_t> a(n); size_t vi_ = 0; for (int q = 0; q < n; q++) { if (ts[q] == 'i') a[vi_++].i = q; else if (ts[q] == 'f') a[vi_++].f = q; else if (ts[q] == 's') a[vi_++].s = "s"; } len = rtosc_amessage(buf, sizeof buf, "/lin/any", ts, a.data()); break; }
                 case M_ALLTAGS: { uint8_t midi[4] = {1, 2, 3, 4}; len = rtosc_message(buf, sizeof buf, "/lin/any", "ifsbhtdScrmTFNI", 1, 2.0, "s", 4, "blob", (int64_t)5, (uint64_t)6, 7.0, "Sym", 'c', 0x11223344, midi); break; }
                 }
                 if (len > maxmsg) stat_add(F_OVERSIZE_MSG);
@@ -161,7 +163,9 @@ struct RtWorld : World {
                     } else {
                         direct++; char buf[512]; int w = (int)(((op.a[0] % 8) + 8) % 8);
                         switch (w) {
-                        case 0: rtosc_message(buf, sizeof buf, "/x/y", "ifs", 1, 2.0, "three"); rtosc_message(buf, 8, "/too/long/for/eight", "i", 1); rtosc_message(nullptr, 0, "/size", "sb", "q", 3, "abc"); break;
+                        case 0: rtosc_message(buf, sizeof buf, "/many", "iiiiiiiiiiiiiiiiiiiiffffssss", 1,2,3,4,5,6,7,8,9,10,11,12,13,14,15,16,17,18,19,20, 1.0,2.0,3.0,4.0, "a","b","c","d");
+                                priv->write("/w", "iiiiiiiiiiiiiiiiiiii", 1,2,3,4,5,6,7,8,9,10,11,12,13,14,15,16,17,18,19,20); while (priv->hasNext()) priv->read();
+                                rtosc_message(buf, sizeof buf, "/x/y", "ifs", 1, 2.0, "three"); rtosc_message(buf, 8, "/too/long/for/eight", "i", 1); rtosc_message(nullptr, 0, "/size", "sb", "q", 3, "abc"); break;
                         case 1: { rtosc_arg_t a[3]; a[0].i = 1; a[1].s = "s"; a[2].b.len = 2; a[2].b.data = (uint8_t *)"xy"; rtosc_amessage(buf, sizeof buf, "/arr", "isb", a); rtosc_arg_val_t av[2]; av[0].type = 'i'; av[0].val.i = 3; av[1].type = 'T'; av[1].val.T = 1; rtosc_avmessage(buf, sizeof buf, "/av", 2, av); break; }
                         case 2: { size_t l = rtosc_message_length(lastmsg, sizeof lastmsg); (void)rtosc_valid_message_p(lastmsg, l); (void)rtosc_valid_message_p("garbage", 7); break; }
                         case 3: { const char *as = rtosc_argument_string(lastmsg); (void)as; unsigned n = rtosc_narguments(lastmsg); for (unsigned i = 0; i < n; i++) { (void)rtosc_type(lastmsg, i); (void)rtosc_argument(lastmsg, i); }
@@ -169,7 +173,7 @@ struct RtWorld : World {
                         case 4: { static const char *pat[] = {"seed:ifs", "se#4d", "ch#16/gain:i", "{seed,need}/", "app/", "*"}; for (auto pp : pat) (void)rtosc_match(pp, lastmsg + 1, nullptr); probes[P_MATCH]++; break; }
                         case 5: { size_t bl = rtosc_bundle(buf, sizeof buf, 0x1122334455667788ull, 2, m1, m2); (void)rtosc_bundle(buf + 300, 10, 1, 1, m1); if (bl) { (void)rtosc_bundle_p(buf); size_t e = rtosc_bundle_elements(buf, bl); for (size_t i = 0; i < e; i++) { (void)rtosc_bundle_fetch(buf, (unsigned)i); (void)rtosc_bundle_size(buf, (unsigned)i); } (void)rtosc_bundle_timetag(buf); (void)rtosc_message_length(buf, bl); } probes[P_BUNDLE]++; break; }
                         case 6: { priv->write("/p", "is", 1, "abc"); priv->writeArray("/q", "", nullptr); priv->raw_write(m1); while (priv->hasNextLookahead()) priv->read_lookahead(); while (priv->hasNext()) priv->read(); (void)priv->peak(); probes[P_LINK]++; break; }
-                        case 7: { RtOut dd(b2u, true); dd.obj = rig; dd.reply("/direct", "is", 1, "r"); dd.broadcast("/direct", "f", 1.0); dd.reply("/huge", "s", g_big); break; }
+                        case 7: { RtOut dd(b2u, true); dd.obj = rig; dd.reply("/direct", "is", 1, "r"); dd.reply("/direct/many", "iiiiiiiiiiiiiiiiiii", 1,2,3,4,5,6,7,8,9,10,11,12,13,14,15,16,17,18,19); dd.broadcast("/direct/many", "ffffffffffffffffffff", 1.,2.,3.,4.,5.,6.,7.,8.,9.,10.,11.,12.,13.,14.,15.,16.,17.,18.,19.,20.); dd.broadcast("/direct", "f", 1.0); dd.reply("/huge", "s", g_big); break; }
                         }
                     }
                 }
